@@ -173,7 +173,7 @@ class GW1NPLL(LiteXModule):
 
         clkoutd_div = [d for d in freqs_div if d != 3] # extracts divisor by an even value
         if (len(freqs_div) == 2 and freqs_div.count(3) == 2) or (len(clkoutd_div) == 2) or \
-                (len(clkoutd_div) == 1 and clkoutd_div[0] % 2 != 0):
+                (len(clkoutd_div) == 1 and (clkoutd_div[0] % 2 != 0 or clkoutd_div[0] > 128)):
             raise ValueError("Gowin PLL has two divisor: one /3 and an even divisor between 2 and 128")
 
         # configure sdiv for CLKOUTD (if it's required)
